@@ -31,9 +31,9 @@ def read_lammpslog(filename) -> [pd.DataFrame]:
         if data[-1].split()[0].isnumeric():  # incomplete log file
             end.append(len(data) - 2)
 
-    start = np.array(start)
-    end = np.array(end)
-    linenum = end - start - 1
+    start = np.array(start[:len(end)], dtype=int)
+    end = np.array(end, dtype=int)
+    linenum = np.maximum(end - start - 1, 0)
     logger.info(f"Section Number: {len(linenum)} \t Line Numbers: {str(linenum)}")
     del data
 
